@@ -43,6 +43,10 @@ class Ctx:
 
     def __init__(self, max_depth=200000, pins=None, twin=False, tier="quick"):
         self.solver = z3.Solver()
+        self.full_timeout = int(__import__("os").environ.get("VERIF_SOLVER_TIMEOUT_MS", "60000"))
+        self.quick_timeout = int(__import__("os").environ.get("VERIF_SOLVER_QUICK_MS", "300"))
+        self.extra_stack = []         # temporary assumptions of eval_under / extra-model search (not part of pc)
+        self._last = self.solver      # the solver object that answered the last check (for model())
         self.max_depth = max_depth
         self.pins = dict(pins or {})  # structural choices fixed for this shard, BY VALUE
         self.twin = twin              # vacuity twin: every claim is replaced by `True`
@@ -60,6 +64,7 @@ class Ctx:
         self.decisions = []
         self.alternatives = []        # prefixes to schedule, produced on this path
         self.pc = []
+        self.extra_stack = []
         self.known = {}               # cond id -> (cond, bool)  (keeps cond alive!)
         self.model_cache = None
         self.no_fork = 0
@@ -125,19 +130,26 @@ class Ctx:
         if z3.is_false(z3.simplify(bad)):
             return
         if self.check(bad, kind="verdict_checks"):
-            m = self.solver.model()
+            m = self._last.model()
             self.found.append((label, m))
             if any(k.startswith("setorder#") for k in self.choices):
                 # the counterexample needs a particular set iteration order: collect a few more witnesses of the
                 # same path so that the replay can find one whose order real CPython exhibits
                 self.solver.push()
                 self.solver.add(bad)
+                n_extra = len(self.extra_stack)
+                self.extra_stack.append(bad)
                 for _ in range(5):
-                    self.solver.add(z3.Or(*[v != m.eval(v, model_completion=True) for v in self.vars.values()]))
-                    if not self.vars or not self.check(kind="verdict_checks"):
+                    blk = z3.Or(*[v != m.eval(v, model_completion=True) for v in self.vars.values()]) if self.vars else None
+                    if blk is None:
                         break
-                    m = self.solver.model()
+                    self.solver.add(blk)
+                    self.extra_stack.append(blk)
+                    if not self.check(kind="verdict_checks"):
+                        break
+                    m = self._last.model()
                     self.found.append((label, m))
+                del self.extra_stack[n_extra:]
                 self.solver.pop()
 
     def assume(self, c):
@@ -160,9 +172,13 @@ class Ctx:
         self.claims_evaluated += len(pairs) - len(live)
         if not live:
             return
-        if len(live) > 1 and not self.check(z3.Or(*[b for _, b in live]), kind="verdict_checks"):
-            self.claims_evaluated += len(live)
-            return
+        if len(live) > 1:
+            try:
+                if not self.check(z3.Or(*[b for _, b in live]), kind="verdict_checks"):
+                    self.claims_evaluated += len(live)
+                    return
+            except Unsupported:
+                pass            # the disjunction was too hard (solver timeout): decide the claims one by one
         for l, b in live:
             self.claim(l, b)
 
@@ -180,10 +196,23 @@ class Ctx:
     def check(self, *extra, kind="fork_checks"):
         t = time.time()
         self.stats[kind] += 1
+        # the incremental solver answers the many easy feasibility checks; what it cannot settle quickly goes to a
+        # one-shot QF_BV solver (bit-blasting tactic), which is orders of magnitude faster on the hard ones
+        self.solver.set("timeout", self.quick_timeout)
         r = self.solver.check(*extra)
+        self._last = self.solver
+        if r == z3.unknown:
+            self.stats["oneshot"] = self.stats.get("oneshot", 0) + 1
+            s2 = z3.SolverFor("QF_BV")
+            s2.set("timeout", self.full_timeout)
+            s2.add(*self.pc)
+            s2.add(*self.extra_stack)
+            s2.add(*extra)
+            r = s2.check()
+            self._last = s2
         self.stats["solver_s"] += time.time() - t
         if r == z3.unknown:
-            raise Unsupported("solver returned unknown: " + self.solver.reason_unknown())
+            raise Unsupported("solver returned unknown: " + self._last.reason_unknown())
         return r == z3.sat
 
     def _note_bounds(self, c):
@@ -263,7 +292,7 @@ class Ctx:
                 return self.check(cond), True
         can_t = self.check(cond)
         if can_t:
-            self.model_cache = self.solver.model()
+            self.model_cache = self._last.model()
         return can_t, self.check(z3.Not(cond))
 
     def fork(self, cond) -> bool:
@@ -328,6 +357,7 @@ class Ctx:
         """Evaluate thunk() with `assumption` temporarily on the path, never forking."""
         self.solver.push()
         self.solver.add(assumption)
+        self.extra_stack.append(assumption)
         self.no_fork += 1
         saved = (self.known, self.model_cache, {k: list(v) for k, v in self.bounds.items()})
         self.known, self.model_cache = dict(self.known), None
@@ -345,12 +375,13 @@ class Ctx:
         finally:
             self.no_fork -= 1
             self.known, self.model_cache, self.bounds = saved
+            self.extra_stack.pop()
             self.solver.pop()
 
     def model(self):
         if not self.check(kind="verdict_checks"):
             return None
-        return self.solver.model()
+        return self._last.model()
 
 
 def jnorm(v):
